@@ -8,7 +8,8 @@
     Hypotheses that are about the stage parameters (validated by the correspondence runs, not proved
     of the Rust code): [key_compat] (equal set keys have equal look-up names), [stages_extensional] /
     [stages_local] (the checker and generator read the context only through the four by-name
-    look-ups), [ord_ok] (a hash set enumerates exactly its elements). *)
+    look-ups), [ord_ok] (a hash set enumerates exactly its elements).
+    The model follows /repo as of 2d1bc77 (glob skips non-files: c8709a7; context errors name files: 2d1bc77). *)
 From Coq Require Import List String Bool Permutation.
 Import ListNotations.
 Local Open Scope string_scope.
@@ -48,13 +49,42 @@ Theorem C13_pipeline_ok_iff :
                 Forall2 (fun (sp : input) py => file_out W ann (w_lookups W ord ctx) (fst sp) = Some py) source pys.
 Proof. exact m2p_ok_iff. Qed.
 
-(** Diagnostics name their files: every parse/check/generate diagnostic carries the stripped path of an
-    input that fails that stage with that message.  PARTIAL: diagnostics of the context stage carry no
-    path at all (see [C13_ctx_error_unattributed_refuted]). *)
-Theorem C13_errors_name_files_partial :
+(** Diagnostics name their files: every diagnostic of every stage carries the stripped path of an input
+    that fails that stage with that message; for the context stage (since 2d1bc77) the file is one
+    whose own context - its declarations alone - cannot be built.  The fallback branch of the Rust code
+    (no file fails alone: errors without path) is in the model and is reached only with an empty error
+    list, because in the model the shared context fails exactly when some file's own context fails.
+    STILL PARTIAL with respect to the code: a failure to load the built-in stubs is not modelled; that
+    is the one way the real fallback can produce path-less diagnostics. *)
+Theorem C13_errors_name_files :
   forall (W : world) ord ann source dir es,
     m2p W ord ann source dir = Err es -> Forall (blames W ord ann source dir) es.
 Proof. exact m2p_errors_blame. Qed.
+
+(** what [blames] says for a context-stage diagnostic, spelled out *)
+Theorem C13_ctx_errors_name_files :
+  forall (W : world) ord ann source dir es p m,
+    m2p W ord ann source dir = Err es -> In (EStage SCtx p m) es ->
+    exists s p0 a ms, In (s, p0) source /\ p = option_map (strip_prefix dir) p0 /\ w_parse W s = Ok a /\
+                      w_build_ctx W [a] = Err ms /\ In m ms.
+Proof.
+  intros W ord ann source dir es p m H I. apply m2p_errors_blame in H.
+  exact (proj1 (Forall_forall _ _) H _ I).
+Qed.
+
+Theorem C13_pathless_error_pathless_input :
+  forall (W : world) ord ann source dir es st m,
+    m2p W ord ann source dir = Err es -> In (EStage st None m) es -> exists s, In (s, None) source.
+Proof. exact pathless_error_pathless_input. Qed.
+
+Theorem C13_ctx_failure_reported :
+  forall (W : world) ord ann source dir s p0 a ms,
+    parse_errs W (stripped dir source) = [] ->
+    In (s, p0) source -> w_parse W s = Ok a -> w_build_ctx W [a] = Err ms ->
+    exists es, m2p W ord ann source dir = Err es /\
+               (forall m, In m ms -> In (EStage SCtx (option_map (strip_prefix dir) p0) m) es) /\
+               Forall (fun e => exists p m', e = EStage SCtx p m') es.
+Proof. exact ctx_failure_reported. Qed.
 
 Theorem C13_parse_failure_reported :
   forall (W : world) ord ann source dir s p0 m,
@@ -212,13 +242,6 @@ Theorem C13_enumeration_dependent_refuted :
     m2p toy ord_id false source [] = Ok pys /\ m2p toy ord_rev false source [] = Ok pys' /\ pys <> pys'.
 Proof. exact enumeration_dependent_refuted. Qed.
 
-(** context-building errors name no file *)
-Theorem C13_ctx_error_unattributed_refuted :
-  exists (source : list input) m,
-    Forall (fun sp : input => snd sp <> None) source /\
-    m2p toy ord_id false source ["src"] = Err [EStage SCtx None m].
-Proof. exact ctx_error_unattributed_refuted. Qed.
-
 (** "error implies nothing written" fails when a write fails in the middle of the loop *)
 Theorem C13_error_implies_nothing_written_refuted :
   exists fs fs' es p t,
@@ -242,6 +265,17 @@ Example C13_hypotheses_satisfiable :
   m2p toy ord_id false source0 ["src"] = Ok ["CFFh"; "xix"] /\
   m2p toy ord_rev false (rev source0) ["src"] = Ok ["xix"; "CFFh"].
 Proof. exact toy_hypotheses. Qed.
+
+Example C13_example_ctx_error_attributed :
+  m2p toy ord_id false [("cFx", Some ["src"; "a.mamba"]); ("?__", Some ["src"; "b.mamba"]); ("uF_", Some ["src"; "u.mamba"])] ["src"]
+  = Err [EStage SCtx (Some ["src"; "b.mamba"]) "bad declaration"].
+Proof. exact ctx_error_attributed. Qed.
+
+Example C13_example_dir_named_mamba_skipped :
+  tdir toy ord_id [ (["src"], Dir); (["src"; "x.mamba"], File "cAx"); (["src"; "d.mamba"], Dir) ] [] None None false =
+  ([ (["src"], Dir); (["src"; "x.mamba"], File "cAx"); (["src"; "d.mamba"], Dir); (["target"], Dir);
+     (["target"; "x.py"], File "CA") ], Ok ["target"]).
+Proof. exact dir_named_mamba_skipped. Qed.
 
 Example C13_example_run : tdir toy ord_id fs0 [] None None false = (fs0_after, Ok ["target"]).
 Proof. exact toy_run. Qed.
@@ -285,7 +319,10 @@ Check C13_pipeline_ok_iff :
 Print Assumptions C13_all_or_nothing.
 Print Assumptions C13_stage_failure_writes_nothing.
 Print Assumptions C13_pipeline_ok_iff.
-Print Assumptions C13_errors_name_files_partial.
+Print Assumptions C13_errors_name_files.
+Print Assumptions C13_ctx_errors_name_files.
+Print Assumptions C13_pathless_error_pathless_input.
+Print Assumptions C13_ctx_failure_reported.
 Print Assumptions C13_parse_failure_reported.
 Print Assumptions C13_check_failure_reported.
 Print Assumptions C13_mirrored.
@@ -299,7 +336,6 @@ Print Assumptions C13_fresh_file_project.
 Print Assumptions C13_cross_file_visible.
 Print Assumptions C13_order_independent_without_unique_names_refuted.
 Print Assumptions C13_enumeration_dependent_refuted.
-Print Assumptions C13_ctx_error_unattributed_refuted.
 Print Assumptions C13_error_implies_nothing_written_refuted.
 Print Assumptions C13_one_output_per_source_refuted.
 Print Assumptions C13_hypotheses_satisfiable.
